@@ -20,7 +20,8 @@ LEVEL_TEXT = ("held on N generated conflict-free proposal sets x ~13 probe power
               "decided by adoption (propose x, observe whether x is adopted unchanged). Exploration only.")
 LEVEL_NOTE = ("domain = conflict-free sets with distinct priorities (ties are observed and reported separately); a ~0 "
               "preference strictly inside the exclusion zone is a don't-care (statement and code are not "
-              "self-consistent there, see DESIGN.md C04); powers compared to 1e-6 W")
+              "self-consistent there, see DESIGN.md C04); powers compared to 1e-6 W"
+              " Build phase: plus C03's pool-handle tier (bounds that BatteryPool.propose_* put into proposals).")
 RULE = ("random system bounds/zone x 1-5 proposals with distinct priorities biased to compatible bounds; probes at "
         "each end of the reported bounds +-1 W, zone edges +-1 W and 0. distinct = canonical case JSON; non-trivial = "
         "conflict-free and (>=2 proposals with a preference or a bounds-narrowing higher-priority proposal)")
